@@ -16,7 +16,7 @@ RULE = ("one evaluation = one (entity class, stanza): the stanza is either the d
 ASSUMPTIONS = ["'documented shape' = the class's own test fixture / docstring as transcribed in vf/catalogue.py; enumeration-valued attributes keep the documented literal",
                "protobuf payloads inside <proto> are compared field by field on the fields the sender set (C10's comparator), not byte by byte",
                "a catalogue disagreement is reviewed as a possible transcription error before it is called a defect"]
-REQUIRED = ["fixture_classes", "hand_classes", "receive_roundtrips", "send_roundtrips", "values_redrawn", "lists_varied", "normalisations", "outgoing_classes", "keys_mixed_cases", "keys_mixed_ok", "optional_variants", "optional_ok"]
+REQUIRED = ["fixture_classes", "hand_classes", "receive_roundtrips", "send_roundtrips", "values_redrawn", "lists_varied", "normalisations", "outgoing_classes", "receive_side_classes_found", "receive_side_classes_catalogued", "keys_mixed_cases", "keys_mixed_ok", "optional_variants", "optional_ok"]
 TIMEOUT = {"quick": 600, "thorough": 7200}
 
 
@@ -480,6 +480,23 @@ def run(spec, acc):
     fx, errors = catalogue.fixtures()
     if len(fx) < 40:
         acc.inconc("only %d entity fixtures could be loaded from the repository's test modules (%s)" % (len(fx), errors[:2]))
+    if sh == 0:
+        # reach monitor: every class some layer parses incoming stanzas with must be in the catalogue (base classes that only
+        # serve their subclasses' parsers, and the generic result/message classes exercised by C06/C08/C10, are listed here)
+        BASES = {"AckProtocolEntity", "ChatstateProtocolEntity", "ContactNotificationProtocolEntity", "EncProtocolEntity", "PictureIqProtocolEntity",
+                 "ProtocolEntity", "ProtomessageProtocolEntity", "ResultIqProtocolEntity", "SyncIqProtocolEntity"}
+        receive_side(type("Probe", (), {}))
+        have = set(c.__name__ for n, c, t in fx)
+        for n in catalogue.HAND:
+            try:
+                have.add(catalogue.hand_class(n).__name__)
+            except Exception:
+                pass
+        missing = sorted(set(_recv_names) - have - BASES)
+        acc.count("receive_side_classes_found", len(_recv_names))
+        acc.count("receive_side_classes_catalogued", len(set(_recv_names) & have))
+        if missing:
+            acc.inconc("receive-side entity classes without a catalogue shape: %s" % missing[:8])
     for i, (name, cls, tree) in enumerate(fx):
         if i % nsh != sh:
             continue
